@@ -14,7 +14,11 @@ SCHEME_PRELUDE = r"""
 (define (open-sim-binary-input name)
   (if (equal? (sim-stream-kind name) "custom")
       (make-custom-binary-input-port (lambda (bv start end) (sim-custom-read name bv start end)))
-      (sim-open-stream name)))
+      (sim-open-binary-stream name)))
+(define (open-sim-binary-output name)
+  (if (equal? (sim-stream-kind name) "custom")
+      (make-custom-binary-output-port (lambda (bv start end) (sim-custom-write name bv start end)))
+      (sim-open-binary-stream name)))
 (define (slurp-chars p) (let loop ((c (read-char p)) (acc '())) (if (eof-object? c) (list->string (reverse acc)) (loop (read-char p) (cons c acc)))))
 (define (slurp-peek p) (let loop ((acc '())) (let ((c (peek-char p))) (if (eof-object? c) (list->string (reverse acc)) (let ((d (read-char p))) (if (eqv? c d) (loop (cons d acc)) (list 'peek-read-disagree c d)))))))
 (define (slurp-strings p n) (let loop ((acc '())) (let ((s (read-string n p))) (if (eof-object? s) (apply string-append (reverse acc)) (loop (cons s acc))))))
